@@ -95,6 +95,11 @@ func convertAttrToField(attr slog.Attr) zapcore.Field {
 	case slog.KindUint64:
 		return zap.Uint64(attr.Key, attr.Value.Uint64())
 	case slog.KindGroup:
+		if len(attr.Value.Group()) == 0 {
+			// The slog.Handler contract: "If a group has no Attrs (even if
+			// it has a non-empty key), ignore it."
+			return zap.Skip()
+		}
 		if attr.Key == "" {
 			// Inlines recursively.
 			return zap.Inline(groupObject(attr.Value.Group()))
